@@ -44,6 +44,8 @@ C["C10"]["jobs"]+=[job("api-k2-postclose2",".","VH_Reassembler",["C10/"],{"k":2,
    job("clock-k3-2s",".","VH_Reassembler",["C10/"],{"k":3,"maxInFlight":2,"timeout_mode":4,"forcepush":2,"plain":1},Q,clock="sym",bounds="two pushes of SYSCALL records then one free operation, 2s timeout, every time.Now() reading symbolic: an incomplete event in a non-full buffer leaves only once its timeout has elapsed; size bound and head rule as before"),
    job("clock-k3-5ms-anytype",".","VH_Reassembler",["C10/"],{"k":3,"maxInFlight":1,"timeout_mode":3},T,clock="sym",bounds="k=3 free operations, record types symbolic, 5ms timeout, maxInFlight=1, symbolic clock")]
 C["C10"]["assumptions"]=C["C10"]["assumptions"]+["clock jobs: each time.Now() returns an arbitrary non-decreasing instant"]
+for P_ in ("C01",):
+    C[P_]["jobs"]+=[job("api-k3-anywhere",".","VH_Reassembler",[P_+"/"],{"k":3,"maxInFlight":2,"window":0},Q,bounds="k=3 then Close, maxInFlight=2, sequence numbers anywhere in 0..2^32-1 (no common 2^24 window: orderings the sort treats as roll-over, in any mix)")]
 for P_ in ("C01","C03"):
     C[P_]["jobs"]+=[job("clock-k3-2s",".","VH_Reassembler",[P_+"/"],{"k":3,"maxInFlight":2,"timeout_mode":4,"forcepush":2,"plain":1},Q,clock="sym",bounds="two pushes of SYSCALL records then one free operation, 2s timeout, symbolic clock: events may leave the buffer by expiry between the calls"),
       job("clock-k3-5ms-anytype",".","VH_Reassembler",[P_+"/"],{"k":3,"maxInFlight":1,"timeout_mode":3},T,clock="sym",bounds="k=3 free operations, record types symbolic, 5ms timeout, maxInFlight=1, symbolic clock")]
